@@ -54,6 +54,7 @@ def run(repo: Repo, tier: str, res: CheckResult, seed: int = 0) -> None:
     facade_caches_agree(repo, res)
     shared_codec_audits(repo, res)
     integration_codecs_use_the_column_type(repo, res)
+    self_type_is_the_nearest_owner(repo, res)
     res.assumptions = list(ASSUMPTIONS)
 
 
@@ -313,6 +314,29 @@ def shared_codec_audits(repo: Repo, res: CheckResult) -> None:
                             "locations with different name mappings gets ONE dumper (or loader), built for whichever location was "
                             "requested first, while its partner is built per layout -- load(dump(x)) fails on the other location. "
                             + f.message[:160], f.line))
+    # (c) dump must SUCCEED for every value of the type and, for the JSON clause, emit JSON-shaped containers: the union dumper's
+    # Literal test may not hash / compare the object blindly, container dumpers rebuild the outer form (audits owned by C02)
+    from . import c02
+    sub3 = CheckResult("C02")
+    c02.union_dumper(repo, sub3)
+    c02.container_outer_forms(repo, sub3)
+    c02.container_passthrough(repo, sub3)
+    res.evaluated("roundtrip:dump-total-and-json-shaped", True)
+    rt = {"UNION.literal-type-blind": ("ROUNDTRIP.union-dumper-literal-test",
+                                       "dump of a union with a Literal case: the test that decides whether the object is a Literal member "
+                                       "must be total and type-exact for objects of the OTHER cases (a hashed / ==-only lookup raises for "
+                                       "an unhashable list case or lets Decimal('1') pass as the literal 1): load(dump(x)) fails or "
+                                       "returns another value. "),
+          "OUTER.container-passthrough": ("ROUNDTRIP.dump-not-json-shaped",
+                                          "the dumped value travels through json.dumps / json.loads: a container handed over as it is "
+                                          "(deque, a Sequence subclass, a MappingProxyType) is not JSON-serialisable or comes back as "
+                                          "another class. "),
+          "OUTER.": ("ROUNDTRIP.dump-not-json-shaped", "the documented outer form of a dumped container is what the JSON clause relies on. ")}
+    for f in sub3.findings:
+        for k, (rule, why) in rt.items():
+            if f.rule.startswith(k):
+                res.add(Finding("C01", rule, f.file, f.qualname, f.construct, why + f.message[:200], f.line))
+                break
     sub2 = CheckResult("C18")
     m18 = repo.mod(c18.EP)
     c18.flag_list_dumper(repo, m18, sub2)
@@ -347,3 +371,34 @@ def integration_codecs_use_the_column_type(repo: Repo, res: CheckResult) -> None
                                 f"`{norm(c)}` chooses the codec by the class of the value, the other direction uses the declared type "
                                 "`tp`: for a column declared as list[Point], a NewType with its own codec or a tuple the stored "
                                 "representation is not the one the loader expects", c.lineno))
+
+
+def self_type_is_the_nearest_owner(repo: Repo, res: CheckResult) -> None:
+    """typing.Self in a field annotation denotes the class that declares the field: the loader and the dumper of a recursive model
+    (`reply_to: Optional[Self]`) substitute the owner of the NEAREST field location. Scanning the location stack from its root
+    finds the outermost model instead as soon as the model is itself a field of another one (`Post.comments: list[Comment]`):
+    Self becomes Post, dump raises AttributeError and load builds the wrong class."""
+    m = repo.mod("provider/loc_stack_tools")
+    fn = m.functions.get("find_owner_with_field") if hasattr(m, "functions") else None
+    if fn is None:
+        fn = next((f for f in m.tree.body if isinstance(f, ast.FunctionDef) and f.name == "find_owner_with_field"), None)
+    if fn is None:
+        raise AnalysisError("anchor vanished: provider/loc_stack_tools.py:find_owner_with_field")
+    users = [mm.rel for mm in repo.modules.values() if any(isinstance(c, ast.Call) and norm(c.func).endswith("find_owner_with_field") for c in ast.walk(mm.tree))] \
+        if hasattr(repo, "modules") else []
+    stack = func_params(fn)[0]
+    loops = [l for l in ast.walk(fn) if isinstance(l, ast.For)]
+    res.evaluated("self-type:nearest-owner", True)
+    if len(loops) != 1:
+        raise AnalysisError("find_owner_with_field: expected one loop over the location stack")
+    it = loops[0].iter
+    backwards = any(isinstance(c, ast.Call) and norm(c.func) == "reversed" and c.args and stack in norm(c.args[0]) for c in ast.walk(it)) \
+        or "[::-1]" in norm(it)
+    if stack not in norm(it):
+        raise AnalysisError(f"find_owner_with_field: the loop does not iterate the stack parameter: {norm(it)}")
+    if not backwards:
+        res.add(Finding("C01", "SELF.owner-searched-from-the-root", m.rel, "find_owner_with_field", norm(loops[0].iter)[:100],
+                        f"`for ... in {norm(it)[:60]}` walks the location stack from its root: the first field found is the OUTERMOST one, so "
+                        "typing.Self of a model nested in another model's field resolves to the outer model (loader and dumper of the "
+                        "wrong class; dump raises AttributeError); Self is the owner of the nearest field location -- the stack has to be "
+                        "scanned backwards", loops[0].lineno))
